@@ -771,7 +771,11 @@ class PairContext:
 MECHS = ["free", "pendulum", "double_pendulum", "slider", "pm_fixed_distance", "rigid_pair", "synth"]
 ATTACH = ["none", "gravity", "spring_h", "spring_c", "kelvin_voigt_c", "maxwell", "motor", "pd", "pid"]
 CONTACTS = ["none", "rest_mu0", "stick_mu", "slide_mu", "open_mu", "two_spheres", "two_spheres_slide", "accel_plane", "spin_offcentre",
-            "ceiling_mu", "ceiling_mu0", "incline_stick", "open_then_stick"]
+            "ceiling_mu", "ceiling_mu0", "incline_stick", "open_then_stick",
+            # sliding exactly along one tangent axis of the contact frame (one component of gamma_F is exactly zero; seeded C16-e)
+            "slide_x", "slide_y",
+            # a closed contact on the mechanism's own tip body: the contact force loads the joints (seeded C16-f)
+            "tip_plane_mu0", "tip_plane_mu"]
 INITS = ["rest", "spin"]
 INCONSISTENT = ["joint_velocity", "position_offset", "joint_offset", "penetration", "approaching", "s2s_penetration"]
 GRAV = 9.81
@@ -910,7 +914,18 @@ def build_c16(case):
     # ---- contacts on a separate ball (and a second ball on top of it)
     con = case["contact"]
     mus = {}
-    if con != "none" or bad in ("penetration", "approaching", "s2s_penetration"):
+    if con in ("tip_plane_mu0", "tip_plane_mu"):
+        from cardillo.discrete import Frame
+
+        rad = 0.2
+        mu = 0.0 if con == "tip_plane_mu0" else 0.3
+        r_tip = np.asarray(tip.q0[:3], float)
+        plane = Frame(r_OP=r_tip - np.array([0.0, 0.0, rad]), name="tip_support")
+        mt = dict((id(b), m) for b, m in bodies)[id(tip)]
+        contr += [plane, fo.Force(np.array([0.05, -0.03, -1.0]) * mt * GRAV, tip, name="tip_load"),
+                  co.Sphere2Plane(plane, tip, mu=mu, r=rad, e_N=0.0, e_F=0.0, name="tip_contact")]
+        mus["tip_contact"] = mu
+    elif con != "none" or bad in ("penetration", "approaching", "s2s_penetration"):
         rad, mb = 0.25, 0.6
         mu = 0.0 if con in ("rest_mu0", "ceiling_mu0") else 0.3
         z = rad
@@ -930,6 +945,10 @@ def build_c16(case):
             mus["ball0_plane"] = 0.3
         if con == "slide_mu":
             v = np.array([0.7, -0.4, 0.0])
+        if con == "slide_x":
+            v = np.array([0.7, 0.0, 0.0])
+        if con == "slide_y":
+            v = np.array([0.0, -0.4, 0.0])
         if bad == "penetration":
             z = rad - 0.01
         if bad == "approaching":
